@@ -20,7 +20,7 @@ def selftest(tier):
 
 def obligations(tier, seed):
     import random
-    t = 900 if tier == 'quick' else 2400
+    t = 450 if tier == 'quick' else 2400
     rnd = random.Random(seed)
     n = len(skeletons.TEMPLATES)
     k2s = list(range(n))
